@@ -2586,10 +2586,11 @@ char *_GD_ParseFragment(FILE *restrict fp, DIRFILE *D, struct parser_state *p,
           &outstring, tok_pos);
 
     if (D->error == GD_E_OK && !match) {
-      /* remember the first RAW field of the fragment, not the last */
+      /* remember the RAW field of this fragment which the parser chose as the
+       * dirfile's reference field, if it did (not simply the last RAW field) */
       gd_entry_t *E = _GD_ParseFieldSpec(D, p, n_cols, in_cols,
           strlen(in_cols[0]), NULL, me, 0, 1, &outstring, tok_pos);
-      if (first_raw == NULL)
+      if (first_raw == NULL && E != NULL && E == D->reference_field)
         first_raw = E;
     }
 
